@@ -14,6 +14,7 @@ import IodineModel.Drv.Downstream
 import IodineModel.Drv.Negot
 import IodineModel.Drv.Shell
 import IodineModel.Drv.World
+import IodineModel.Drv.Options
 /-
 Line-protocol driver: one operation per input line, one result line per operation.
 The C harnesses (harness/*.c) answer the same lines by calling the real code; the
@@ -52,7 +53,7 @@ def step (st : DrvState) (line : String) : DrvState × String :=
          | [] => none) with
   | some r => r
   | none =>
-  match firstSome [Drv.Codec.handle, Drv.Encoding.handle, Drv.Users.handle, Drv.Login.handle, Drv.Common.handle, Drv.WireRead.handle, Drv.WirePut.handle, Drv.Shell.handle, Drv.Downstream.handle, Drv.Negot.handle] toks with
+  match firstSome [Drv.Codec.handle, Drv.Encoding.handle, Drv.Users.handle, Drv.Login.handle, Drv.Common.handle, Drv.WireRead.handle, Drv.WirePut.handle, Drv.Shell.handle, Drv.Downstream.handle, Drv.Negot.handle, Drv.Options.handle] toks with
   | some r => (st, r)
   | none =>
     match Drv.FwQuery.handle st.fw toks with
